@@ -77,15 +77,16 @@ func MalformedSig(name string) []byte {
 	return b
 }
 
-// Now is the harness clock: the k-th reading comes from the assignment (now.sec/now.nsec), the real clock otherwise.
+// Now is the harness clock: the k-th reading is a fixed base plus the k-th monotonic nanosecond value of the assignment (now.mono), the real clock otherwise.
 // Source files named with -clockfiles read the clock through it (time.Now() / time.Since( rewritten mechanically).
 func Now() time.Time {
 	load()
-	if vs, ok := assignment["now.sec"]; ok {
-		if cursor["now.sec"] >= len(vs) { // more readings than the counterexample recorded: the clock stands still
-			return time.Unix(int64(vs[len(vs)-1]), int64(assignment["now.nsec"][len(vs)-1]))
+	if vs, ok := assignment["now.mono"]; ok {
+		base := time.Unix(1700000000, 0)
+		if cursor["now.mono"] >= len(vs) { // more readings than the counterexample recorded: the clock stands still
+			return base.Add(time.Duration(vs[len(vs)-1]))
 		}
-		return time.Unix(int64(next("now.sec")), int64(next("now.nsec")))
+		return base.Add(time.Duration(next("now.mono")))
 	}
 	return time.Now()
 }
